@@ -29,7 +29,7 @@ _p("C05", "CrossHair/z3 bounded exhaustive symbolic execution of the five iterat
 _p("C06", "CrossHair/z3 symbolic execution of each iterator with lazy stop/filter flags and an unbounded symbolic maxlevel",
    CH + ". stop(node)/filter_(node) answers are fresh solver Booleans created when the real code asks; maxlevel is None or a z3 Int with no bound.",
    "one path = (shape, start, maxlevel region, answers of stop/filter actually asked); non-trivial = >= 2 admitted nodes; distinct = distinct decision tuples",
-   "trees with <= 4 nodes and every start node, trees with 5 nodes from the root; every stop set and filter set, maxlevel None or any integer; 5 iterators",
+   "trees with <= 4 nodes, every start node, every stop set and filter set, maxlevel None or ANY integer; additionally trees with 5 nodes from the root with every stop set, maxlevel in {None, -1..6} and no filter_; 5 iterators",
    "trees with <= 5 nodes (<= 6 for PreOrderIter from the root), same",
    ["impure predicates (results depending on call count)", "trees beyond the bound"],
    COMMON_ASSUME + ["stop/filter are pure per node (memoised per path)"])
@@ -202,8 +202,8 @@ def obligations(prop, tier):
     elif prop == "C06":
         for it in ("pre", "post", "level", "group", "zigzag"):
             if q:
-                out.append(dict(name="restrict5root_" + it, module="harness.iters", body="c06_body", cfg={"iter": it, "N": 5, "exactN": True, "starts": False}, depth=4,
-                                bounds="N=5, start at the root", picked="parent vector", symbolic="maxlevel (unbounded int), stop/filter answers"))
+                out.append(dict(name="restrict5root_" + it, module="harness.iters", body="c06_body", cfg={"iter": it, "N": 5, "exactN": True, "starts": False, "concrete_maxlevel": True, "no_filter": True}, depth=4,
+                                bounds="N=5, start at the root, maxlevel in {None,-1..6}, no filter_", picked="parent vector, maxlevel", symbolic="stop answers"))
             out.append(dict(name="restrict_" + it, module="harness.iters", body="c06_body", cfg={"iter": it, "N": 4 if q else 5}, depth=4 if q else 5,
                             bounds="N<=%d" % (4 if q else 5), picked="n, parent vector, start", symbolic="maxlevel (unbounded int), stop/filter answers"))
     elif prop == "C01":
